@@ -275,8 +275,11 @@ func (p BitList) At(i int) bool {
 	if p.flags&isBitList == 0 {
 		return false
 	}
+	// The list's bounds were validated when the pointer was read; a bit
+	// list may be far longer than a struct's data section, so the struct
+	// data-offset limit of addOffset does not apply here.
 	bit := BitOffset(i)
-	addr := p.off.addOffset(bit.offset())
+	addr := p.off.addSizeUnchecked(Size(bit.offset()))
 	return p.seg.readUint8(addr)&bit.mask() != 0
 }
 
@@ -291,7 +294,7 @@ func (p BitList) Set(i int, v bool) {
 		panic("BitList.Set called on a non-bit list")
 	}
 	bit := BitOffset(i)
-	addr := p.off.addOffset(bit.offset())
+	addr := p.off.addSizeUnchecked(Size(bit.offset()))
 	b := p.seg.slice(addr, 1)
 	if v {
 		b[0] |= bit.mask()
